@@ -39,6 +39,79 @@ def parse_too_small(msg):
     m = re.search(r"Needed space for (\d+) intersections but only had space for (\d+)", msg)
     return (int(m.group(1)), int(m.group(2))) if m else None
 
+def hard_inputs():
+    """(op, args) calls whose numerics stress the iteration state of the compiled routines: tangent and numerically tangent
+    pairs (Newton takes linear steps / gives up), pairs of very close simple roots (many Newton iterations), failing calls,
+    triangle intersections, locate, plus ordinary calls"""
+    par = [[F(0), F(1, 2), F(1)], [F(0), F(1), F(0)]]          # apex (1/2, 1/2)
+    out = []
+    for k in (0, 10, 20, 27, 30, 33, 40, 45):
+        eps = F(0) if k == 0 else F(1, 2 ** k)
+        line = [[F(0), F(1)], [F(1, 2) - eps, F(1, 2) - eps]]
+        out.append(("Curve.intersect", [enc_arr(par), enc_arr(line), "GEOMETRIC"]))
+        out.append(("Curve.intersect", [enc_arr(line), enc_arr(par), "GEOMETRIC"]))
+    # two parabolas kissing / nearly kissing
+    for k in (0, 20, 30, 40):
+        eps = F(0) if k == 0 else F(1, 2 ** k)
+        up = [[F(0), F(1, 2), F(1)], [F(1) - eps, F(0) - eps, F(1) - eps]]   # lowest point (1/2, 1/2 - eps)
+        out.append(("Curve.intersect", [enc_arr(par), enc_arr(up), "GEOMETRIC"]))
+    # cubic with an inflection crossing, ordinary pairs, coincident (raises / flagged) pairs
+    cub = [[F(0), F(1, 4), F(3, 4), F(1)], [F(0), F(2), F(-2), F(0)]]
+    out.append(("Curve.intersect", [enc_arr(cub), enc_arr([[F(0), F(1)], [F(0), F(0)]]), "GEOMETRIC"]))
+    out.append(("Curve.intersect", [enc_arr(cub), enc_arr([[F(0), F(1)], [F(1, 8), F(-1, 8)]]), "GEOMETRIC"]))
+    out.append(("Curve.intersect", [enc_arr(par), enc_arr(par), "GEOMETRIC"]))
+    for n in (3, 5, 7):
+        out.append(("Curve.intersect", [enc_arr(wiggly(n)), enc_arr(LINE), "GEOMETRIC"]))
+    t1 = [[F(0), F(1), F(0)], [F(0), F(0), F(1)]]
+    t2 = [[F(1, 4), F(5, 4), F(1, 4)], [F(1, 4), F(1, 4), F(5, 4)]]
+    t3 = [[F(0), F(1, 2), F(1), F(0), F(1, 2), F(0)], [F(0), F(-1, 4), F(0), F(1, 2), F(1, 2), F(1)]]
+    out.append(("Triangle.intersect_summary", [enc_arr(t1), enc_arr(t2)]))
+    out.append(("Triangle.intersect_summary", [enc_arr(t3), enc_arr(t2)]))
+    out.append(("Triangle.intersect_summary", [enc_arr(t1), enc_arr(t3)]))
+    out.append(("Triangle.locate", [enc_arr(t3), enc_arr([[F(1, 4)], [F(1, 4)]])]))
+    out.append(("Curve.locate", [enc_arr(cub), enc_arr([[F(1, 2)], [F(0)]])]))
+    out.append(("Curve.evaluate", [enc_arr(cub), enc_f(F(3, 8))]))
+    return out
+
+
+def numerical_state_sweep(ctx):
+    """every call of a random history (one process) must return bit-for-bit what the same call returns alone in a pristine process
+    (exception type and message included)"""
+    rng = ctx.rng
+    calls = hard_inputs()
+    stats = {"distinct_calls": len(calls), "histories": 0, "calls_compared": 0, "differences": 0,
+             "kind": "support sweep: tangent / nearly tangent / close-root / failing / triangle calls in random order, each compared "
+                     "bitwise with a pristine process"}
+    for cfg in ("speedup", "pure"):
+        from concurrent.futures import ThreadPoolExecutor
+        with ThreadPoolExecutor(max_workers=16) as ex:
+            pristine = list(ex.map(lambda c: run_impl(cfg, [{"op": c[0], "args": c[1]}])[0], calls))
+        key = lambda r: json.dumps(r, sort_keys=True)
+        n_hist = (8 if cfg == "speedup" else 2) if ctx.quick() else (60 if cfg == "speedup" else 10)
+        length = 40 if ctx.quick() else 300
+        hists = []
+        for h in range(n_hist):
+            if h == 0:
+                order = list(range(len(calls))) + list(reversed(range(len(calls))))       # every ordered neighbour pair of the list
+            else:
+                order = [rng.randrange(len(calls)) for _ in range(length)]
+            hists.append(order)
+        with ThreadPoolExecutor(max_workers=16) as ex:
+            outs = list(ex.map(lambda order: run_impl(cfg, [{"op": calls[i][0], "args": calls[i][1]} for i in order]), hists))
+        for order, res in zip(hists, outs):
+            stats["histories"] += 1
+            for pos, (i, r) in enumerate(zip(order, res)):
+                stats["calls_compared"] += 1
+                if key(r) != key(pristine[i]):
+                    stats["differences"] += 1
+                    if stats["differences"] <= 3:
+                        ctx.violations.append({"kind": "result-depends-on-history", "config": cfg, "op": calls[i][0],
+                                               "case": {"call": calls[i][1], "history_of_earlier_calls": [[calls[j][0], calls[j][1]] for j in order[:pos]]},
+                                               "implementation_returned": r, "pristine": pristine[i],
+                                               "verdict": "the call returns something else after %d earlier calls than alone in a pristine process" % pos})
+                    break
+    ctx.corr["sweep:numerical_state_histories"] = stats
+
 
 def run(ctx):
     prove(ctx, DEPS)
@@ -132,6 +205,8 @@ def run(ctx):
                                    "op": "speedup.curve_intersections", "config": "speedup"})
     ctx.corr["workspace_histories"] = dict(stats, distinct_nontrivial=n_hist)
     ctx.samples.append({"correspondence": "workspace_histories", "case": {"first_ops": [list(map(str, o)) for o in metas[0][:8]] if metas else []}})
+
+    numerical_state_sweep(ctx)
 
     # ---- presentation independence and non-mutation through the public constructors (both configurations)
     pres_stats = {"cases": 0, "failures": 0, "kind": "support sweep: list / int array / C-order / F-order presentations; inputs unchanged"}
